@@ -84,6 +84,30 @@ class C07(Check):
             return False
         return any(l.startswith(want_prefix) for l in out)
 
+    def _aborts(self, harness, lines):
+        f = self.work("abort.ops")
+        with open(f, "w") as fh:
+            fh.write("\n".join(runner.strip_obs(l) for l in lines) + "\n")
+        try:
+            rc, _ = self._harness_ops(harness, f, self.work("abort.out"), timeout=120)
+        except subprocess.TimeoutExpired:
+            return False
+        return rc < 0
+
+    def _abort_finding(self, res, harness, case_lines, rc):
+        """The real code died (signal) while executing a concrete, valid operation sequence: that sequence is
+        the failing input (the graph is certainly not `equal to a fresh load` any more)."""
+        hdr, ops = case_lines[:1], case_lines[1:]
+        if self._aborts(harness, hdr + ops):
+            ops = runner.ddmin(hdr, ops, lambda ls: self._aborts(harness, ls))
+            self._aborts(harness, hdr + ops)
+            shown = [runner.strip_obs(l) for l in hdr + ops] + ["# implementation output before it died:"] + \
+                open(self.work("abort.out")).read().splitlines()[-6:]
+        else:
+            shown = [runner.strip_obs(l) for l in case_lines]
+        res.spec_failures.append(runner.Finding("spec", "spec:C07:implementation_aborted", shown,
+                                                {"signal": -rc}))
+
     def _run_cfg_cases(self, harness, cases, out_path):
         """One fresh process per configuration, up to 16 in parallel; outputs concatenated in order."""
         d = self.work("cfg", "x")
@@ -111,7 +135,9 @@ class C07(Check):
             for i in range(len(cases)):
                 with open(os.path.join(d, f"case_{i}.out")) as f:
                     out.write(f.read())
-        if errors:
+        if errors and errors[0][1] < 0:
+            self._cfg_abort = (cases[errors[0][0]], errors[0][1])
+        elif errors:
             i, rc, err = errors[0]
             raise core.TieBroken("harness:c07:cfg-run", f"{len(errors)} configuration processes failed; first: case {i} rc={rc}\n{err}\n" +
                                  "\n".join(cases[i]))
@@ -157,7 +183,42 @@ class C07(Check):
                 [states[i] for i in sorted(states)] + [periods[i] for i in sorted(periods)] + ["G", "Q -"])
 
     @staticmethod
-    def _final_obs(out_lines):
+    def _denote_g(line):
+        """Denotation of a G observation: per checkable, live dependency ids grouped by redundancy group name
+        (everything outside redundancy groups is one class).  Group objects, keys, totals and the registry size
+        are representation and are dropped (DESIGN.md §0.3)."""
+        out = []
+        for part in line.split(" | ", 1)[1].split(";"):
+            if part.startswith("reg="):
+                continue
+            if part in ("0", "x"):
+                out.append(part)
+                continue
+            classes = {}
+            for grp in part.split("+"):
+                f = grp.split("/")
+                if len(f) != 4:
+                    classes.setdefault("?" + grp, set()).add(-1)
+                    continue
+                classes.setdefault(f[0], set()).update(int(x) for x in f[2].split(",") if x)
+            out.append(sorted((k, tuple(sorted(v))) for k, v in classes.items() if v) or "0")
+        return out
+
+    @staticmethod
+    def _denote_q(line):
+        """Closed-period bits, reachability bits and live dependency count per checkable; the number of group
+        objects and the registry size are dropped."""
+        pre, post = line.split(" | ", 1)
+        return (pre, [":".join(t.split(":")[:2]) for t in post.split() if not t.startswith("reg=")])
+
+    @classmethod
+    def _final_obs(cls, out_lines):
+        g = [l for l in out_lines if l.startswith("G |")]
+        q = [l for l in out_lines if l.startswith("Q ")]
+        return (cls._denote_g(g[-1]) if g else None, cls._denote_q(q[-1]) if q else None)
+
+    @staticmethod
+    def _final_raw(out_lines):
         g = [l for l in out_lines if l.startswith("G |")]
         q = [l for l in out_lines if l.startswith("Q ")]
         return (g[-1] if g else None, q[-1] if q else None)
@@ -214,12 +275,14 @@ class C07(Check):
                 return i, rt_out, None, "timeout"
             return i, rt_out, (open(outf).read().splitlines() if rc == 0 else None), err
 
-        n = diffs = 0
+        n = diffs = repr_diffs = 0
         with concurrent.futures.ThreadPoolExecutor(max_workers=min(16, os.cpu_count() or 4)) as ex:
             for i, rt_out, fl_out, err in ex.map(one, todo):
                 if fl_out is None:
                     raise core.TieBroken("harness:c07:fresh-run", f"case {i}: {err}")
                 n += 1
+                if self._final_raw(rt_out) != self._final_raw(fl_out):
+                    repr_diffs += 1        # statistic: representation (group objects / registry size) differs
                 if self._final_obs(rt_out) != self._final_obs(fl_out):
                     diffs += 1
                     if diffs == 1:
@@ -231,6 +294,7 @@ class C07(Check):
                                                                 {"case": i}))
         res.stats["fresh_load_compared"] = n
         res.stats["fresh_load_differences"] = diffs
+        res.stats["fresh_load_representation_differences"] = repr_diffs
 
     @staticmethod
     def _split_cases(lines):
@@ -302,6 +366,11 @@ class C07(Check):
                 for i, c in enumerate(corpus):
                     tmp = self.work(f"corpus_{i}.out")
                     rc, err = self._harness_ops(harness, c, tmp)
+                    if rc < 0:
+                        for case in self._split_cases(open(c).read().splitlines()):
+                            if self._aborts(harness, case):
+                                self._abort_finding(res, harness, case, rc)
+                                return res
                     if rc != 0:
                         raise core.TieBroken("harness:c07:corpus", f"{c}: rc={rc}\n{err}")
                     out.write(open(tmp).read())
@@ -327,7 +396,11 @@ class C07(Check):
             if c[0].startswith("C cfg rt"):
                 c += ["G", "Q -"]          # final observation of the runtime cases (compared with a fresh load)
         save_cfg = self.work("cfg.out")
+        self._cfg_abort = None
         self._run_cfg_cases(harness, cases, save_cfg)
+        if self._cfg_abort:
+            self._abort_finding(res, harness, self._cfg_abort[0], self._cfg_abort[1])
+            return res
         self._collect(res, self._drive(save_cfg, driver), save_cfg, harness, driver, "cfg")
         self._compare_fresh(res, harness, cases, os.path.dirname(self.work("cfg", "x")))
         if res.stats.get("fresh_load_compared", 0) == 0 or res.stats.get("cfg.runtime_refused", 0) == 0:
